@@ -287,12 +287,12 @@ def gen_draw_table(rng, n):
 
 def gen_answers(rng):
     k = rng.random()
-    if k < 0.45:
+    if k < 0.5:
         return [True]
-    if k < 0.8:
+    if k < 0.94:
         n = rng.choice([1, 1, 2, 3, 5])
         return [False] * n + [True]
-    if k < 0.9:
+    if k < 0.97:
         n = rng.choice([97, 98])
         return [False] * n + [True]
     return []          # every candidate refused -> ValueError after the last attempt
